@@ -1008,7 +1008,7 @@ if __name__ == '__main__':
         extra_sources=['Alpaqa/Gen/C12.lean', 'Alpaqa/Model/C12.lean', 'Alpaqa/Proofs/Basic.lean',
                        'Driver/C12.lean'] + ['Alpaqa/Proofs/C12%s.lean' % n for n in (
                            'Layout', 'Seg', 'Compl', 'Vec', 'Forward', 'Penalty', 'Adjoint', 'Lin',
-                           'RicM', 'Riccati', 'Optimal', 'Deriv')],
+                           'RicM', 'Riccati', 'Optimal', 'Deriv', 'AffQuad')],
         harness_name='c12',
         harness_sources=[os.path.join(C.VERIF, 'harness', 'c12.cpp')] + C.repo_lib_sources(
             ['problem/ocproblem.cpp']),
@@ -1024,9 +1024,12 @@ if __name__ == '__main__':
             'the correspondence run (bit-exact for forward/backward incl. the exact regime; Riccati to '
             '2^-30·cond because Eigen LDLT / PartialPivLU enter as oracles with contract R̄X = B)',
             'user functions of the control problem are oracles (arbitrary functions; Jacobian-transpose '
-            'products by their adjointness contract); `backward = Fréchet derivative of forward` is proved '
-            'up to the chain rule (adjoint = tangent sensitivity for every direction, penalty derivative) '
-            'and monitored by exact forward-mode differentiation of the cost polynomial',
+            'products by their adjointness contract); `backward = derivative of forward` is a theorem for the '
+            'class of affine-quadratic problems (backward_is_gradient_affquad / _affine_quadratic: affine '
+            'dynamics and constraints, costs quadratic in (x, u), |V(U+εδU) − V(U) − ε⟨g,δU⟩| ≤ Kε²); for general '
+            'nonlinear user functions it is proved up to the chain rule (adjoint = tangent sensitivity for '
+            'every direction, penalty derivative) and monitored by exact forward-mode differentiation of the '
+            'cost polynomial',
         ],
         assumptions=['IEEE rounding is not modelled: theorems are over ordered fields; the exact-regime '
                      'inputs make the binary64 run coincide with the real-number semantics',
